@@ -195,6 +195,10 @@ def detail_action(rng, tok, feats):
     r = rng.random()
     if r < 0.2:
         return ["lazy", name, pid, "cell" + pid]
+    if r < 0.22 and "peek" in feats:
+        # a lazily evaluated detail that somebody reads before the outcome, and whose source moves on
+        cell = "cell" + pid
+        return ["seq", [["lazy", name, pid, cell], ["peek"], ["setcell", cell, (pid + "-later").encode().hex()]]]
     if r < 0.24 and "peek" in feats:
         return ["peek"]
     if r < 0.28 and "peek" in feats:
